@@ -17,12 +17,14 @@ var equivHeaderSpellings = map[string][][]string{
 	"Accept-Encoding": {{"gzip, br"}, {"br, gzip"}, {"gzip,br"}, {"x-gzip, br"}, {" gzip ,  br"}},
 	"Accept-Language": {{"en, fr"}, {"fr, en"}, {"en,fr"}, {"en", "fr"}, {"en", "fr"}},
 	"X-A":             {{"1"}, {"1"}, {"1", "b"}, {"1, b"}},
+	"X-Raw":           {{"caf$XE9"}, {"caf$XE9"}, {"na$XEFve $XFF"}},
 }
 
 var otherHeaderValues = map[string][]string{
 	"Accept-Encoding": {"identity", "deflate"},
 	"Accept-Language": {"de", "nl, de"},
 	"X-A":             {"2", "3"},
+	"X-Raw":           {"caf$XE8", "cafe"},
 }
 
 // C09 generates histories in which stored replies stay fresh and are requested again under
@@ -47,7 +49,7 @@ func C09(t *rapid.T) *world.Scenario {
 			slots[i].res = ExactLenResource(n)
 		}
 		if Pct(t, "vary"+itoa(int64(i)), 35) {
-			slots[i].vary = Pick(t, "varyf"+itoa(int64(i)), "Accept-Encoding", "Accept-Language", "X-A")
+			slots[i].vary = Pick(t, "varyf"+itoa(int64(i)), "Accept-Encoding", "Accept-Language", "X-A", "X-Raw")
 		}
 	}
 	n := rapid.IntRange(2, 10).Draw(t, "steps")
@@ -209,17 +211,30 @@ func C06(t *rapid.T) *world.Scenario {
 		switch Weighted(t, lbl+"-class", 14, 12, 12, 10, 10, 10, 10, 10, 12) {
 		case 0: // storable control
 			fresh()
+			if Pct(t, lbl+"-swrctl", 40) {
+				cc = []string{"max-age=0", "stale-while-revalidate=3600"}
+			}
 		case 1: // response no-store
 			fresh()
 			cc = append(cc, "no-store")
+			if Pct(t, lbl+"-conncc", 20) {
+				// the directive field itself nominated as hop-by-hop: it still governs this hop
+				rp.Header = append(rp.Header, H("Connection", Pick(t, lbl+"-connv", "Cache-Control", "cache-control, X-Other", "Expires, Cache-Control")))
+			}
 		case 2: // request no-store
 			fresh()
 			rq.Header = append(rq.Header, H("Cache-Control", Pick(t, lbl+"-rns", "no-store", "no-store, max-age=0", "max-stale=5, no-store")))
+			if Pct(t, lbl+"-bgfull", 50) {
+				// if an earlier entry is served stale under stale-while-revalidate, the refresh
+				// fetched for this no-store request must not be stored either
+				bg := world.Reply{Kind: "resp", Status: 200, Body: world.Body{Len: 33}, Header: [][2]string{H("Date", "$T+0"), H("Cache-Control", "max-age=600"), H("X-Mark", "mark$S;"), H("Etag", `"v$S"`)}}
+				rq.Bg = &bg
+			}
 		case 3: // other method / Range
 			fresh()
 			rq.Method = Pick(t, lbl+"-m", "HEAD", "POST", "PUT", "OPTIONS", "GET", "DELETE", "PATCH", "FOO")
 			if rq.Method == "GET" {
-				rq.Header = append(rq.Header, H("Range", "bytes=0-9"))
+				rq.Header = append(rq.Header, H("Range", Pick(t, lbl+"-range", "bytes=0-9", "bytes=0-9", "Bytes=0-9", "items=0-1", "lines=1-2")))
 				if Pct(t, lbl+"-206", 50) {
 					rp.Status = 206
 					rp.Header = append(rp.Header, H("Content-Range", "bytes 0-9/40"))
